@@ -49,6 +49,7 @@ type Unit struct {
 	Covers    []string                              `json:"covers"`
 	BudgetOK  bool                                  `json:"budget_ok"`
 	HangIsBug bool                                  `json:"hang_is_violation"`
+	EnvOK     bool                                  `json:"env_counterexamples"` // counterexamples that depend on environment choices (other goroutines) cannot be replayed sequentially: report them
 	DeadlineS map[string]float64                    `json:"deadline_s"`
 	Weight    int                                   `json:"weight"`
 }
@@ -698,6 +699,11 @@ func conclude(spec *Spec, s *sched, tier string, seed int, t0 time.Time, noEvide
 			case "modelbug":
 				machinery = append(machinery, fmt.Sprintf("%s: reference model disagrees with the real oracle on %s (%s)", u.Name, v.v.ID, res.detail))
 			default:
+				if u.EnvOK && v.v.EnvNondets > 0 && res.verdict == "unconfirmed" {
+					confirmed = append(confirmed, fmt.Sprintf("VIOLATION property=%s replay=%s", spec.Property, path))
+					fmt.Printf("  unit=%s kind=%s id=%s %s sets=%v\n  environment-dependent counterexample (%d environment choices: stale snapshots / pool hand-backs on decision path %v); a sequential native replay cannot reproduce it\n", u.Name, v.v.Kind, v.v.ID, v.v.Msg, v.sets, v.v.EnvNondets, v.v.Prefix)
+					break
+				}
 				machinery = append(machinery, fmt.Sprintf("%s: counterexample for %s %s did not reproduce natively (%s); replay=%s", u.Name, v.v.Kind, v.v.ID, res.detail, path))
 			}
 		}
